@@ -90,6 +90,12 @@ func genE2ETail(r *rand.Rand) e2eCase {
 		ex.GroupBy = []string{g}
 	} else {
 		c.Shape = "plain"
+		if r.Intn(5) < 2 {
+			// a single clause with plain bindings only: the shape whose LIMIT may be pushed to the driver - never when a
+			// HAVING clause still has to drop rows
+			c.Shape = "plain-scan"
+			where = `{?s ?p ?x}`
+		}
 		ex.Projs = []jproj{{Bind: "?s"}, {Bind: "?x"}}
 		switch r.Intn(4) {
 		case 0:
